@@ -81,6 +81,11 @@ func boundsReport(w *World, r *Report, b *boundsAn, rule string, kinds map[strin
 			c, _ := constInt(s.operand)
 			ok = b.lenAtLeast(s.ins.(*ssa.Slice).X, s.ins.Block(), 0) >= c
 		}
+		if ok && s.kind == "index" && indexesLocallyGrownSlice(s.ins) {
+			// a bound on the counter is not a bound on a slice this function grows itself: decide by the append
+			// discipline or by a test of the slice's own length
+			ok = indexIntoGrownSlice(s.ins, s.operand) || b.lenGuardsIndex(s.ins, s.operand)
+		}
 		if !ok && (s.kind == "slice" || s.kind == "index") {
 			// the operand's type and constant operands keep it below the proven minimum length of the container
 			var cont ssa.Value
@@ -382,4 +387,58 @@ func nilAfterError(w *World, r *Report, rule string, fns []*ssa.Function) int {
 		}
 	}
 	return n
+}
+
+// lenGuardsIndex: a dominating comparison of (an alias of) the index with len() of the indexed container bounds it.
+func (b *boundsAn) lenGuardsIndex(ins ssa.Instruction, idx ssa.Value) bool {
+	ia, ok := ins.(*ssa.IndexAddr)
+	if !ok {
+		return false
+	}
+	in := map[ssa.Value]bool{}
+	for _, a := range b.aliases(idx) {
+		in[a] = true
+	}
+	for _, blk := range ia.Parent().Blocks {
+		iff, ok := lastInstr(blk).(*ssa.If)
+		if !ok {
+			continue
+		}
+		bin, ok := iff.Cond.(*ssa.BinOp)
+		if !ok {
+			continue
+		}
+		for _, mOnX := range []bool{true, false} {
+			m, other := bin.X, bin.Y
+			if !mOnX {
+				m, other = bin.Y, bin.X
+			}
+			if !in[m] && !b.derivedFrom(m, in, 0) {
+				continue
+			}
+			o := stripConv(other)
+			for k := 0; k < 3; k++ { // len(s) +/- const
+				if bo, ok := o.(*ssa.BinOp); ok && (bo.Op == token.ADD || bo.Op == token.SUB) {
+					if _, isC := constInt(bo.Y); isC {
+						o = stripConv(bo.X)
+						continue
+					}
+				}
+				break
+			}
+			lc, ok := o.(*ssa.Call)
+			if !ok {
+				continue
+			}
+			bi, ok := lc.Call.Value.(*ssa.Builtin)
+			if !ok || bi.Name() != "len" || !(lc.Call.Args[0] == ia.X || sameBase(lc.Call.Args[0], ia.X)) {
+				continue
+			}
+			up, _ := cmpEdges(bin, mOnX, other)
+			if up >= 0 && edgeDominates(blk, up, ia.Block()) {
+				return true
+			}
+		}
+	}
+	return false
 }
